@@ -972,6 +972,10 @@ pub fn install_connector(net: Shared) {
                 n.push(Rec::Note { msg: format!("connect {} hangs", addr) });
                 pgcat::verif::net::ConnectOutcome::Hang
             }
+            Accept::Blackhole => {
+                n.push(Rec::Note { msg: format!("connect {} hangs (times out after 127 s)", addr) });
+                pgcat::verif::net::ConnectOutcome::TimeoutAfter(std::time::Duration::from_secs(127))
+            }
             Accept::Up => {
                 let id = n.conns.len();
                 let (a, b) = tokio::io::duplex(1 << 20);
